@@ -737,6 +737,8 @@ def run_adj(ctx, cfg, cl, orc, op, count=True):
 
 def input_class(cfg, op, orc, q, r):
     parts = [orc.per, "sel" if cfg.get("sel") else "nosel"]
+    if "inplace" in op:
+        parts.append("after_in_place_edit:" + op["inplace"].split(",")[0] + ":" + op["inplace"].split("/")[-1])
     if cfg.get("prec"):
         parts.append(build_class(cfg) + (",boxes_differ" if cfg["prec"][0] and cfg["prec"][1] and cfg["prec"][0] != cfg["prec"][1] else ""))
     if op["m"] != "adj":
@@ -755,7 +757,7 @@ SITE = {"get": "get_atoms", "cells": "get_atoms_in_cells", "adj": "create_adjace
 
 
 def report(ctx, cfg, op, orc, mode, q, rows, r, what, expected, observed):
-    case = {"kind": "reuse" if "reuse" in op else "op", "cfg": cfg, "op": dict(op)}
+    case = {"kind": "reuse" if "reuse" in op else "inplace" if "inplace" in op else "op", "cfg": cfg, "op": dict(op)}
     if q is not None:
         case["row"] = int(r)
         case["query"] = [float(x) if np.isfinite(x) else repr(float(x)) for x in q[r]]
@@ -935,6 +937,7 @@ def shards(tier, seed):
     out.append({"kind": "derived", "off": off})
     out.append({"kind": "precedence", "off": 0})
     out.append({"kind": "boundary", "off": 0})
+    out.append({"kind": "inplace", "off": 0})
     out.append({"kind": "orient", "what": "order", "off": off})
     out.append({"kind": "orient", "what": "boxrows", "off": off})
     for r in (range(24) if tier == "thorough" else [(5 * seed + k) % 24 for k in (1, 10, 19)]):
@@ -942,7 +945,7 @@ def shards(tier, seed):
     out.append({"kind": "edge", "off": off})
     # heavy shards first
     weight = {"st": 0, "pst": 0, "ms": 1, "pms": 1, "sel": 2, "assign": 3, "misc": 3, "cap": 0, "reuse": 2, "alias": 2,
-              "flavour": 2, "orient": 2, "edge": 3, "flavour_pairs": 2, "derived": 2, "precedence": 2, "boundary": 2}
+              "flavour": 2, "orient": 2, "edge": 3, "flavour_pairs": 2, "derived": 2, "precedence": 2, "boundary": 2, "inplace": 2}
     out.sort(key=lambda s: weight[s["kind"]])
     return out
 
@@ -1813,6 +1816,185 @@ def run_boundary(shard, ctx):
     del struc
 
 
+BOX_EDITS = ["scale_half", "one_element", "one_row", "swap_rows"]
+COORD_EDITS = ["scale_double", "one_element", "one_row", "swap_rows", "shift_all"]
+
+
+def _edit_box(b, how):
+    """edit the box array IN PLACE (same object, new values; stays non-singular and dyadic)"""
+    if how == "scale_half":
+        b *= 0.5
+    elif how == "one_element":
+        b[1, 1] += 1.0
+    elif how == "one_row":
+        b[2] = b[2] + b[0]
+    elif how == "swap_rows":
+        b[[0, 1]] = b[[1, 0]]
+    else:
+        raise ValueError(how)
+
+
+def _edit_coord(c, how):
+    if how == "scale_double":
+        c *= 2
+    elif how == "one_element":
+        c[0, 2] += 0.5
+    elif how == "one_row":
+        c[1] = c[-1] + 0.5
+    elif how == "swap_rows":
+        c[[0, -1]] = c[[-1, 0]]
+    elif how == "shift_all":
+        c += np.array([0.5, -1.0, 1.5], dtype=c.dtype)
+    else:
+        raise ValueError(how)
+
+
+def run_inplace(shard, ctx):
+    """round-5 seed: AN ARGUMENT ARRAY EDITED IN PLACE BETWEEN TWO CALLS (same object, new values).
+    call(x) -> edit x in place -> call(x) again; the second answer is compared with brute force over the NEW values (the
+    oracle uses mc/models/geom.py only, never biotite's box helpers).  Arguments: the box array given as `box=`, the box
+    attribute of an AtomArray, the coordinate array (ndarray float32 / float64, AtomArray.coord), the selection mask, the
+    query array and the radius array of get_atoms; edits: scale, one element, one row, swap rows (, shift); boxes
+    orthorhombic (4,4,4) and triclinic t1, plus non-periodic for the non-box arguments.  A cell list built BEFORE the
+    edit keeps references to a float32 coordinate array and to the box (documented nowhere as a copy): its later answers
+    are class unspecified and only have to be well-formed."""
+    import biotite.structure as struc
+
+    ops = [{"m": "get", "q": "mini", "rows": 70, "r": 1.0}, {"m": "get", "q": "mini", "rows": 70, "r": ["cyc", [0.5, 1.5, 2.5], 0], "mask": True},
+           {"m": "cells", "q": "mini", "rows": 70, "r": 1}, {"m": "adj", "r": 1.5}, {"m": "get", "q": "mini", "rows": [9, 10, 11], "r": 2.0, "single": True}]
+
+    def ask(cl, coords, sel, box, step, label):
+        """all ops on cl against brute force over the given VALUES"""
+        cfg = {"set": ["raw", np.asarray(coords, dtype=float).tolist()], "cs": 1.0, "off": 0}
+        if box is not None:
+            cfg["box"] = "t1"              # label only: ties are class EITHER for every edited box
+        orc = Oracle(cfg, np.asarray(coords, dtype=np.float64).copy(), None if sel is None else np.array(sel, dtype=bool),
+                     None if box is None else np.asarray(box, dtype=np.float64).copy())
+        for op in ops:
+            ctx.journal(json.dumps({"kind": "inplace", "label": label, "step": step}))
+            run_op(ctx, cfg, cl, orc, dict(op, inplace="%s/%s" % (label, step)))
+
+    base = STRUCT["sparse"]
+    for bname in ("o4", "t1"):
+        # ---- A / B: the box array (argument) and the box attribute edited in place
+        for holder in ("box_argument_f32", "box_argument_f64", "atomarray_box_attribute"):
+            for how in BOX_EDITS:
+                label = "%s,%s,%s" % (holder, how, bname)
+                b = np.array(BOXES[bname], dtype=np.float64 if holder.endswith("f64") else np.float32)
+                c = base.astype(np.float32)
+                if holder == "atomarray_box_attribute":
+                    arr = struc.AtomArray(len(c))
+                    arr.coord = c
+                    arr.box = b
+                    b = arr.box                      # the array the structure really holds
+
+                    def build():
+                        return struc.CellList(arr, 1.0, periodic=True)
+                else:
+                    def build():
+                        return struc.CellList(c, 1.0, periodic=True, box=b)
+                ctx.ev(1, 1)
+                cl1 = build()
+                ask(cl1, c, None, b, "first", label)
+                _edit_box(b, how)
+                cl2 = build()                        # same objects, new values
+                ask(cl2, c, None, b, "after_edit_new_celllist", label)
+                ctx.count("unspecified")             # the OLD cell list holds a reference to the edited box
+                try:
+                    r = cl1.get_atoms(c.astype(np.float64), 1.0)
+                    if r.size and (r.min() < -1 or r.max() >= len(c)):
+                        ctx.violation("get_atoms|index_out_of_range|old_celllist_after_box_edit", "malformed answer",
+                                      {"kind": "inplace", "label": label}, "indices in range", [int(r.min()), int(r.max())])
+                except Exception:  # noqa: BLE001
+                    ctx.count("unspecified_refused")
+    for bname in (None, "o4", "t1"):
+        box = None if bname is None else np.array(BOXES[bname], dtype=np.float32)
+        kw = {} if box is None else {"periodic": True, "box": box}
+        # ---- C / D: the coordinate array edited in place
+        for holder in ("coord_f32", "coord_f64", "atomarray_coord"):
+            for how in COORD_EDITS:
+                label = "%s,%s,%s" % (holder, how, bname)
+                c = base.astype(np.float64 if holder == "coord_f64" else np.float32)
+                if holder == "atomarray_coord":
+                    obj = struc.AtomArray(len(c))
+                    obj.coord = c
+                    c = obj.coord
+                    if box is not None:
+                        obj.box = box
+                else:
+                    obj = c
+                ctx.ev(1, 1)
+                cl1 = struc.CellList(obj, 1.0, **kw)
+                ask(cl1, c, None, box, "first", label)
+                _edit_coord(c, how)
+                cl2 = struc.CellList(obj, 1.0, **kw)
+                ask(cl2, c, None, box, "after_edit_new_celllist", label)
+        # ---- E: the selection mask edited in place
+        for how in ("flip_one", "swap", "invert"):
+            label = "selection,%s,%s" % (how, bname)
+            c = base.astype(np.float32)
+            sel = np.array([i % 3 != 1 for i in range(len(c))])
+            ctx.ev(1, 1)
+            cl1 = struc.CellList(c, 1.0, selection=sel, **kw)
+            ask(cl1, c, sel, box, "first", label)
+            before = sel.copy()
+            if how == "flip_one":
+                sel[0] = not sel[0]
+            elif how == "swap":
+                sel[[0, 1]] = sel[[1, 0]]
+            else:
+                sel[...] = ~sel
+            cl2 = struc.CellList(c, 1.0, selection=sel, **kw)
+            ask(cl2, c, sel, box, "after_edit_new_celllist", label)
+            ask(cl1, c, before, box, "old_celllist_after_selection_edit", label)     # the selection is copied by the fix b8968348
+        # ---- F: query and radius arrays edited in place between two calls on ONE cell list
+        c = base.astype(np.float32)
+        cl = struc.CellList(c, 1.0, **kw)
+        n = len(c)
+        for qdt in (np.float64, np.float32):
+            q = (QSETS["mini"][len(EXTRA_Q): len(EXTRA_Q) + 40]).astype(qdt)
+            r = np.array([0.5, 1.0, 2.5, 5.0] * 10, dtype=qdt)
+            for step, edit in enumerate((None, "q_scale", "q_one_row", "q_swap", "r_scale", "r_one", "r_swap")):
+                label = "query_radius_arrays,%s,%s,%s" % (edit, np.dtype(qdt).name, bname)
+                if edit == "q_scale":
+                    q *= 0.5
+                elif edit == "q_one_row":
+                    q[3] = [2.0, 2.0, 2.0]
+                elif edit == "q_swap":
+                    q[[0, -1]] = q[[-1, 0]]
+                elif edit == "r_scale":
+                    r *= 0.5
+                elif edit == "r_one":
+                    r[1] = 0.0
+                elif edit == "r_swap":
+                    r[[0, 3]] = r[[3, 0]]
+                ctx.ev(len(q), len(q))
+                ctx.journal(json.dumps({"kind": "inplace", "label": label}))
+                q64 = q.astype(np.float64)
+                if box is None:
+                    d2 = geom.sq_dist_matrix(q64, c.astype(np.float64))
+                else:
+                    b64 = box.astype(np.float64)
+                    inv = np.linalg.inv(b64)
+                    d2 = geom.sq_min_image_matrix(q64 - np.floor(q64 @ inv) @ b64,
+                                                  c.astype(np.float64) - np.floor(c.astype(np.float64) @ inv) @ b64, b64, k=2)
+                r2 = (r.astype(np.float64) ** 2)[:, None]
+                within = d2 <= r2
+                tie = (d2 == r2) if box is not None else np.zeros_like(within)
+                for as_mask in (False, True):
+                    res = cl.get_atoms(q, r, as_mask=as_mask)
+                    bad = check_mask_array(res, len(q), n, within, tie) if as_mask else \
+                        check_index_array(res, len(q), n, within, tie, box is not None)
+                    if bad is not None:
+                        ctx.violation("get_atoms|%s|argument_edited_in_place" % bad[0],
+                                      "after the query / radius array was edited in place the answer is not the one for its "
+                                      "new values", {"kind": "inplace", "label": label}, expected=np.nonzero(within[bad[1]])[0].tolist(),
+                                      observed=bad[2])
+                    else:
+                        ctx.outcome(("inplace", label, as_mask, within.tobytes()))
+    del struc
+
+
 def run_orient(shard, ctx):
     """the answer sets do not depend on the order of the atoms, on which rows of the box carry which lattice vector,
     or on a rigid rotation of atoms + box + queries (all 24 cube rotations keep the lattice dyadic)"""
@@ -1912,7 +2094,7 @@ def run_edge(shard, ctx):
             pass
 
 
-AUDIT_RUNNERS = {"boundary": run_boundary, "precedence": run_precedence, "flavour_pairs": run_flavour_pairs, "derived": run_derived, "cap": run_cap, "reuse": run_reuse, "alias": run_alias, "flavour": run_flavour, "orient": run_orient,
+AUDIT_RUNNERS = {"inplace": run_inplace, "boundary": run_boundary, "precedence": run_precedence, "flavour_pairs": run_flavour_pairs, "derived": run_derived, "cap": run_cap, "reuse": run_reuse, "alias": run_alias, "flavour": run_flavour, "orient": run_orient,
                  "edge": run_edge}
 
 
@@ -1930,6 +2112,8 @@ def crash_class(case):
                 return "overflow|" + "|".join(str(x) for x in cfg["probe"])
             if cfg.get("kind") == "derived":
                 return "derived|%s" % cfg.get("coords")
+            if cfg.get("kind") == "inplace":
+                return "inplace|%s" % cfg.get("label")
             if cfg.get("kind") == "boundary":
                 return "boundary|%s" % "|".join(str(x) for x in cfg.get("probe", []))
             known = ("build", "assign", "either_build", "reuse", "alias", "alias_after_mutation", "flav", "edge")
@@ -1944,7 +2128,7 @@ def replay(case, ctx):
     if isinstance(case, str):
         a, _, b = case.partition("#")
         cfg = json.loads(a)
-        if cfg.get("kind") in ("overflow", "derived", "boundary"):
+        if cfg.get("kind") in ("overflow", "derived", "boundary", "inplace"):
             case = cfg
         elif "misc" in cfg:
             case = {"kind": "misc", "what": str(cfg["misc"]).replace("edge_", ""), "off": 0}
@@ -1967,6 +2151,10 @@ def replay(case, ctx):
     if case["kind"] == "reuse":
         with np.errstate(invalid="ignore", over="ignore"):
             run_reuse_cfg(ctx, case["cfg"])
+        return
+    if case["kind"] == "inplace":
+        with np.errstate(invalid="ignore", over="ignore"):
+            run_inplace({"off": 0}, ctx)
         return
     if case["kind"] == "boundary":
         with np.errstate(invalid="ignore", over="ignore"):
